@@ -7,6 +7,7 @@
 #ifndef __INCLUDE_TWOPARTICLEGFPART_H
 #define __INCLUDE_TWOPARTICLEGFPART_H
 
+#include <cmath>
 #include"Misc.h"
 #include"StatesClassification.h"
 #include"HamiltonianPart.h"
@@ -53,15 +54,18 @@ public:
         struct Compare {
             const double Tolerance;
             Compare(double Tolerance) : Tolerance(Tolerance) {}
+            // Poles are compared by the cell of width Tolerance they fall into (cells are centred at the multiples of Tolerance).
+            // Unlike |x1 - x2| < Tolerance this is transitive, so that the comparison is a strict weak ordering, as std::set
+            // (and its serialization, which rebuilds the set on the receiving ranks) requires.
+            RealType cell(RealType x) const { return std::floor(x / Tolerance + 0.5); }
             bool real_eq(RealType x1, RealType x2) const {
-                return std::abs(x1 - x2) < Tolerance;
+                return cell(x1) == cell(x2);
             }
             bool operator()(NonResonantTerm const& t1, NonResonantTerm const& t2) const {
                 if (t1.isz4 == t2.isz4) {
-                    return !real_eq(t1.Poles[0], t2.Poles[0]) ? t1.Poles[0] < t2.Poles[0] : (
-                           !real_eq(t1.Poles[1], t2.Poles[1]) ? t1.Poles[1] < t2.Poles[1] : (
-                            t2.Poles[2] - t1.Poles[2] >= Tolerance
-                           ));
+                    for (int p = 0; p < 3; ++p)
+                        if (!real_eq(t1.Poles[p], t2.Poles[p])) return cell(t1.Poles[p]) < cell(t2.Poles[p]);
+                    return false;
                 } else
                     return t1.isz4 < t2.isz4;
             }
@@ -141,15 +145,18 @@ public:
         struct Compare {
             const double Tolerance;
             Compare(double Tolerance) : Tolerance(Tolerance) {}
+            // Poles are compared by the cell of width Tolerance they fall into (cells are centred at the multiples of Tolerance).
+            // Unlike |x1 - x2| < Tolerance this is transitive, so that the comparison is a strict weak ordering, as std::set
+            // (and its serialization, which rebuilds the set on the receiving ranks) requires.
+            RealType cell(RealType x) const { return std::floor(x / Tolerance + 0.5); }
             bool real_eq(RealType x1, RealType x2) const {
-                return std::abs(x1 - x2) < Tolerance;
+                return cell(x1) == cell(x2);
             }
             bool operator()(ResonantTerm const& t1, ResonantTerm const& t2) const {
                 if (t1.isz1z2 == t2.isz1z2) {
-                    return !real_eq(t1.Poles[0], t2.Poles[0]) ? t1.Poles[0] < t2.Poles[0] : (
-                           !real_eq(t1.Poles[1], t2.Poles[1]) ? t1.Poles[1] < t2.Poles[1] : (
-                            t2.Poles[2] - t1.Poles[2] >= Tolerance
-                           ));
+                    for (int p = 0; p < 3; ++p)
+                        if (!real_eq(t1.Poles[p], t2.Poles[p])) return cell(t1.Poles[p]) < cell(t2.Poles[p]);
+                    return false;
                 } else
                     return t1.isz1z2 < t2.isz1z2;
             }
